@@ -238,7 +238,7 @@ class Recorder:
             cs[self.oid(c)] = {'id': self.oid(c), 't': 'comp', 'home': self.oid(home), 'rep': self.rep_term(c),
                                'nrep': int(c.nr_of_repetitions), 'rlink': self.link(c),
                                'members': [self.ids[m] for m in members[id(c)]],
-                               'dur_v': q(c.duration), 'start': q(c.start_time), 'end': q(c.end_time)}
+                               'dur_v': q(self.dur_of(c, S)), 'start': q(c.start_time), 'end': q(c.end_time)}
         snap = {'top': self.oid(S), 'order': [self.oid(o) for o in ops], 'order2': [self.oid(o) for o in ops2],
                 'leaves': objs, 'comps': cs}
         if acq:
@@ -248,6 +248,13 @@ class Recorder:
         if cold:
             self.cold(S, ops, comps, snap)
         return snap
+
+    def dur_of(self, c, S):
+        """Duration of block c; the observed circuit itself answers through the handle the program holds on it."""
+        h = getattr(self, '_handle', None)
+        if c is S and h is not None and h.circuit_structure is S:
+            return h.duration
+        return c.duration
 
     def stim_flat(self, S):
         """to_stim of a handle on S, read by the independent reader, repeats expanded, fused targets split."""
@@ -378,7 +385,7 @@ class Recorder:
             for c in comps:
                 d = snap['comps'][self.oid(c)]
                 d['start_c'] = q(c.start_time)
-                d['dur_c'] = q(c.duration)
+                d['dur_c'] = q(self.dur_of(c, S))
         finally:
             RelationLink.get_start_time = o1
             MultiRelationLink.get_start_time = o2
